@@ -22,6 +22,10 @@ observed: paired scenarios through the real sync and asyncio driver stacks over 
           (c06_pairs.EscChunker / gen_ansi_scenario); two-object histories per platform driver — a default privilege level
           of a first object edited in place, then a second object constructed and used — compared between the stacks AND
           against the isolation expectation (c06_pairs._run_sync_one / _isolation).
+          Round 9 family with_open: `with drv:` / `async with drv:` (op ["with", body], c06_pairs._run_with / gen_with_scenario)
+          x refused / hanging in-band login, failing transport open, failing escalation in on_open, failing user hooks, a set-up
+          line that hangs with the timeout armed, healthy — exception type + message class + cause chain of __enter__ / __exit__,
+          bytes, state afterwards, later operations and re-entered blocks.
           A broken twin-diff obligation for function F makes focus_search run the scenario
           families that exercise F (c06_pairs.FN_FAMILY) with extra seeds."""
 import asyncio
@@ -481,6 +485,28 @@ def _tally(dist, sc, a):
         er["reopened_after_failure"] += 1 if any(op[0] == "open" and i > (a["errors"][0][0] if a.get("errors") else 10 ** 6)
                                                   for i, op in enumerate(sc["ops"])) else 0
         er["transport_closed_at_end"] += 0 if a.get("transport_open") else 1
+    if sc.get("family") == "with_open":
+        wo = dist["with_open"]
+        wo["scenarios"] += 1
+        c = (sc.get("with_open") or {}).get("cause", "?")
+        wo["causes"][c] = wo["causes"].get(c, 0) + 1
+        causes = {x[0]: ",".join(x[3]) for x in a.get("errors", [])}
+        failed, first = False, True
+        for i, (op, o) in enumerate(zip(sc["ops"], a["ops"])):
+            if op[0] != "with":
+                continue
+            wo["blocks"] += 1
+            wo["blocks_entered"] += 1 if (o[0] == "ok" or o[2] != "enter") else 0
+            wo["re_entered_after_failure"] += 1 if failed else 0
+            key = "entered" if o[0] == "ok" else "%s: %s%s" % (o[2], o[1], (" <- " + causes[i]) if causes.get(i) else "")
+            if first:
+                wo["first_block"][c + " / " + key] = wo["first_block"].get(c + " / " + key, 0) + 1
+                first = False
+            if o[0] == "exc":
+                failed = True
+                k2 = "enter_failures" if o[2] == "enter" else "exit_failures"
+                wo[k2][key] = wo[k2].get(key, 0) + 1
+        wo["transport_open_at_end"] += 1 if a.get("transport_open") else 0
     tr = a.get("dialogue", [])
     if tr:
         it = dist["interactive"]
@@ -505,6 +531,8 @@ def _new_dist():
                      "results_with_esc_left": 0},
             "two_objects": {"scenarios": 0, "kinds": {}, "edited_field": {}, "first_used_before_edit": 0, "first_used_after_edit": 0,
                             "first_failed_after_edit": 0, "isolation_failures": 0},
+            "with_open": {"scenarios": 0, "causes": {}, "first_block": {}, "enter_failures": {}, "exit_failures": {}, "blocks": 0,
+                          "blocks_entered": 0, "re_entered_after_failure": 0, "transport_open_at_end": 0},
             "interactive": {"dialogues": 0, "events_hist": {}, "same_response_in_a_row": 0, "hidden_inputs": 0,
                             "with_complete_patterns": 0, "outcomes": {}, "device_skipped_a_question": 0,
                             "device_refused_an_answer": 0, "left_open": 0, "hidden_answers_typed": 0}}
@@ -563,6 +591,7 @@ def pair_suite(rep, thorough):
     n_read = 4000 if thorough else 260           # send_and_read / send_input_and_read x expected_outputs classes x streaming devices
     n_ansi = 4000 if thorough else 280           # escape sequences x cuts inside them
     n_two = 2000 if thorough else 150            # two objects per platform driver, a default level of the first edited in place
+    n_with = 6000 if thorough else 500           # with-block form of opening x the ways the open inside __enter__ can fail
     scs = list(P.corpus())
     for f in rep.findings:
         if f.get("replay"):
@@ -588,6 +617,10 @@ def pair_suite(rep, thorough):
         scs.append(P.gen_scenario(rng, family="ansi"))
     for i in range(n_two):
         scs.append(P.gen_scenario(rng, family="two_objects"))
+    import random
+    rng_w = random.Random("C06-with-%d" % rep.seed)      # own stream (derived from VERIF_SEED): the families above keep theirs
+    for i in range(n_with):
+        scs.append(P.gen_with_scenario(rng_w))
     dist = _new_dist()
     nfail, sy = _run_pairs(rep, P, scs, dist, "", [0])
     if sy:
@@ -668,6 +701,17 @@ def shrink_pair(P, sc, a, b, d):
                 cur, ca, cb, cd = t, x, y, dd
                 changed = True
                 break
+    # operations inside with-blocks
+    for j in range(len(cur["ops"])):
+        i = 0
+        while cur["ops"][j][0] == "with" and i < len(cur["ops"][j][1]):
+            t = json.loads(json.dumps(cur))
+            del t["ops"][j][1][i]
+            dd, x, y = differs(t)
+            if dd:
+                cur, ca, cb, cd = t, x, y, dd
+            else:
+                i += 1
     for simpler in (("policy", ["whole"]), ("fault", None)):
         t = json.loads(json.dumps(cur))
         t[simpler[0]] = simpler[1]
@@ -676,7 +720,7 @@ def shrink_pair(P, sc, a, b, d):
             cur, ca, cb, cd = t, x, y, dd
     # driver options / device behaviours the difference does not need
     for where, key in (("driver_kwargs", "on_open"), ("driver_kwargs", "on_close"), ("device", "mute"), ("device", "refuse"),
-                       ("device", "ignore"), ("device", "auth_hang"), ("device", "auth_attempts")):
+                       ("device", "ignore"), ("device", "auth_hang"), ("device", "auth_attempts"), ("device", "motd")):
         if key in (cur.get(where) or {}):
             t = json.loads(json.dumps(cur))
             del t[where][key]
@@ -939,7 +983,14 @@ def run(rep):
                 "(optionally opened and used), 1-2 in-place edits of its default levels (pattern / escalate / deescalate / not_contains."
                 "append / escalate_prompt / escalate_auth / previous_priv), optionally update_privilege_levels() and more use, then a "
                 "second object constructed and used; oracle = the stacks agree AND in each stack the second object's levels equal those "
-                "of an object constructed before the edit AND its observations equal the same history without the edit; when a twin-diff obligation breaks: focus_search = the families mapped to "
+                "of an object constructed before the edit AND its observations equal the same history without the edit; + the with_open family (own generator stream derived from VERIF_SEED): "
+                "op [with, body] = with drv: / async with drv: x cause of failure inside __enter__ {in-band telnet login with right / wrong / "
+                "empty password or wrong user against a device that re-asks for ever, or hangs after user / password (timeout_ops 0 or 200.1); "
+                "transport open() raising ScrapliAuthenticationFailed / ScrapliConnectionNotOpened / ScrapliConnectionError / ScrapliTimeout / "
+                "OSError / ConnectionRefusedError on every or only the first open; failed escalation inside the platform's / an escalating "
+                "on_open (errors-family auth devices); failing user on_open x on_close hooks; set-up line muted with timeout_ops armed; healthy} "
+                "x body of 0-3 operations x 0-3 later get_prompt / send_command / open / close / further with-blocks on the same object; "
+                "when a twin-diff obligation breaks: focus_search = the families mapped to "
                 "the changed function (c06_pairs.FN_FAMILY) on the driver kinds that reach it, up to 8 (thorough 24) extra seeds; "
                 "telnet: grammar + malformed streams, every single cut + 1-byte + random cuts, both real transports; "
                 "non-trivial = the device executed at least one line / more than one event / at least one command; "
@@ -1029,7 +1080,11 @@ MANIFEST = {
             "expected_outputs against streaming answers, compared by where each stack stops reading; escape sequences cut at every "
             "position by the transport, the chunk behind the cut with and without a further ESC; two objects of each platform driver in "
             "one process, a default privilege level of the first edited in place — here the oracle is also the isolation expectation: "
-            "in EACH stack the second object's levels and observations equal those without the edit), on both real Telnet "
+            "in EACH stack the second object's levels and observations equal those without the edit; the context-manager form "
+            "`with drv:` / `async with drv:` against a refused or hanging in-band login, a failing transport open (incl. refused credentials = "
+            "ScrapliAuthenticationFailed), a failed escalation or failing hook inside on_open, a timeout during open and the healthy case — "
+            "what __enter__ / __exit__ raise (type, message class, explicit cause chain), bytes written, transport / isalive / privilege "
+            "state afterwards, later operations and re-entered blocks), on both real Telnet "
             "transports over scripted sockets and by two runtime probes, comparing the two stacks with each other; it is not a theorem. "
             "A broken twin-diff obligation for function F triggers a search over the scenario families that exercise F with extra seeds.",
     "note": "Trusted: Coq kernel + vm_compute; gen/gen_twins.py (inspect/ast/tokenize of the current tree; the diff hash is computed there); the "
@@ -1064,7 +1119,16 @@ MANIFEST = {
             "before the edit; its observations == a control run of the same history without the edit) is checked per stack, so a "
             "change made to both twins alike is still a failure; edits are setattr / list.append on the first object's "
             "PrivilegeLevel objects and are undone on those same objects at the end of the run, and these histories are never "
-            "interleaved with other scenarios in the asyncio batch. read_duration is 120 real seconds in every and_read call, so "
+            "interleaved with other scenarios in the asyncio batch. The with_open scenarios (round 9) are oracle-only as well: there is no Coq model of "
+            "Driver.__enter__ / __exit__ / open; their sync/asyncio equality rests on the token identity obligations of those functions "
+            "plus the direct comparison of the two real stacks. Their in-band login runs the real channel_authenticate_telnet of both "
+            "stacks against c06_pairs.DialogDevice's login dialogue (login: / Password: / Login incorrect, re-asking for ever; never "
+            "closing the connection: the login loops answer an EOF with a return for ever) with timeout_ops 0 or 200.1 only — the asyncio "
+            "login loop sleeps 0.1 s per iteration (committed difference, auth read polling) while a scripted sync read costs no time, "
+            "so a small timeout_ops would expire in the asyncio stack alone by construction of the scripted clock; transport open "
+            "failures are injected exceptions of the scripted transports (c06_pairs.OpenFaultMixin), not real sockets; a failing "
+            "operation inside the block is caught inside it (an exception leaving the body through __exit__ is not generated). "
+            "read_duration is 120 real seconds in every and_read call, so "
             "the wall-clock stop condition of _read_until_prompt_or_time never fires (a stream that neither matches nor ends is "
             "observed as Starved = blocks for ever). Not modelled: asyncio scheduler, cancellation inside "
             "transport reads, signal/thread timeouts, real sockets. Known findings (listed, still reported): sync Telnet stops answering after 10 "
